@@ -20,7 +20,9 @@ def strings(ctx):
     r = ctx.rng
     # structured: numbers around the limits, with decorations
     nums = ['0', '1', '9', '10', '99', '254', '255', '256', '257', '999', '65534', '65535', '65536', '70000', '007', '00',
-            '4294967296', '9223372036854775807', '9223372036854775808', '99999999999999999999999', '']
+            '4294967296', '9223372036854775807', '9223372036854775808', '99999999999999999999999', '',
+            # numerals another base would read differently (octal / hex / binary prefixes, exponents, digit separators)
+            '010', '017', '08', '09', '0100', '0377', '0400', '000255', '0x10', '0X1F', '0x', '0b1', '0o7', '1e2', '1E1', '1_0', "1'0", '١']
     decos = ['', ' ', '+', '-', 'x', '.', '\t', '0x']
     for a in nums:
         for b in nums:
